@@ -4,6 +4,7 @@ from hypothesis import strategies as st
 from mingus.core import notes
 from mingus.core.mt_exceptions import FormatError, NoteFormatError, RangeError
 
+from vlib import fuzz
 from vlib.core import Sub, failed
 from vlib.ref import theory as T
 
@@ -147,7 +148,26 @@ def sub_malformed(ctx, shard, n):
     ctx.given("malformed", check_malformed, st.text(min_size=1, max_size=8) | near, 1500 if ctx.quick else 50000)
 
 
+
+# ---- coverage-guided fuzz target (atheris): bytes -> text biased towards the relevant alphabet ------------------
+_FUZZ_ALPHABET = list('ABCDEFG#b#b#bcHh -4x')
+
+
+def _fuzz_text(fdp):
+    raw = fdp.ConsumeBytes(fdp.ConsumeIntInRange(1, 14))
+    s = "".join(_FUZZ_ALPHABET[b] if b < len(_FUZZ_ALPHABET) else chr(b if b < 128 else 0x100 + b) for b in raw)
+    return s or None
+
+
+FUZZ = {"names": (_fuzz_text, "malformed")}
+
+def sub_fuzz(ctx, shard, n):
+    """every string is either a valid name (all name clauses apply) or must be rejected (malformed clauses)"""
+    fuzz.run(ctx, __name__, "names", 30000 if ctx.quick else 400000, max_len=16)
+
+
 SUBS = [
+    Sub("fuzz", sub_fuzz, quick=1, thorough=4),
     Sub("names", sub_names, quick=4, thorough=16),
     Sub("names_long", sub_names_long, quick=1, thorough=4),
     Sub("pairs", sub_pairs, quick=4, thorough=16),
